@@ -24,6 +24,7 @@ RULE = (
     "each under a step budget of 50000+100*len dpapi_ng line events and an allocation budget of 1MiB+64*len. state = one (decoder, input) execution; transition = decoder step batches "
     "are not counted, transitions = executions of the decoder under budget. Non-trivial = decoder entered with non-empty input; distinct by (entry point, bytes)."
     ' bind / alter_context also with 1..4 contexts that offer DIFFERENT numbers (0..3) of transfer syntaxes (all 340 non-uniform shapes).'
+    ' Also the same tower listed several times (same object / equal copy) and messages that are packed, changed in place and packed again.'
 )
 ASSUME = ["ref/dcerpc.py and ref/epm.py calibrated on the PDUs captured in tests/_rpc and tests/test_epm.py", "field-wise equality on dataclass constructor fields (decoded known floors/commands additionally cache raw bytes)"]
 BOUND = {"quick": "products as listed; prefixes of one encoding per message shape", "thorough": "same products, prefixes of every generated encoding up to 300 bytes"}
